@@ -10,6 +10,9 @@ environment access is reachable from either compiler (repeatability).
 Not decided: panics inside Cranelift on IR it rejects, beyond R12.d."""
 import re
 
+import symex
+import terms as T
+
 import models
 import terms as T
 from common import Ctx, Row, sites_to_obligations
@@ -80,6 +83,50 @@ def cl_rows():
     ]
 
 
+def _lin(t):
+    """linear form {symbol term: coefficient, "": constant} of a 64-bit term (atoms are opaque symbols)"""
+    if T.is_k(t):
+        return {"": T.sval(t) if t[2] >= 1 << 63 else t[2]}
+    if isinstance(t, tuple) and t and t[0] == "op" and t[1] in ("add", "sub"):
+        a, b = _lin(t[3]), _lin(t[4])
+        return _lin_add(a, b, -1 if t[1] == "sub" else 1)
+    if isinstance(t, tuple) and t and t[0] == "call" and t[1] == "len":
+        return {("len", t[2][0]): 1}
+    return {t: 1}
+
+
+def _lin_add(a, b, k=1):
+    if a is None or b is None:
+        return None
+    out = dict(a)
+    for x, c in b.items():
+        out[x] = out.get(x, 0) + k * c
+    return {x: c for x, c in out.items() if c != 0 or x == ""} if any(x == "" for x in out) else {x: c for x, c in out.items() if c != 0}
+
+
+def _lin_le(c):
+    """`a <= b` / `a < b` (unsigned, no wrap assumed) as the linear form of a - b (+1) <= 0"""
+    if not (isinstance(c, tuple) and c and c[0] == "cmp" and c[1] in ("ule", "ult", "uge", "ugt")):
+        return None
+    a, b = c[3], c[4]
+    if c[1] in ("uge", "ugt"):
+        a, b = b, a
+    l = _lin_add(_lin(a), _lin(b), -1)
+    if c[1] in ("ult", "ugt"):
+        l = _lin_add(l, {"": 1})
+    l.setdefault("", 0)
+    return l
+
+
+def _split_base(addr):
+    """as_ptr(buf) + x -> (buf, x)"""
+    if isinstance(addr, tuple) and addr and addr[0] == "op" and addr[1] == "add":
+        for a, b in ((addr[3], addr[4]), (addr[4], addr[3])):
+            if isinstance(a, tuple) and a and a[0] == "call" and a[1] == "as_ptr":
+                return a[2][0], b
+    return None, None
+
+
 def run(rep, tier):
     cx = Ctx(rep, "std")
     F = cx.F
@@ -136,6 +183,48 @@ def run(rep, tier):
         fixup = any(callee_path(n).endswith("copy_nonoverlapping") for n in ns)
         rep.ob(rc, "writer=%s" % p, (via_macro and has_assert) or (fixup and p.endswith("resolve_jumps")),
                "raw buffer write in %s" % p, expected="emit macro with its assert, or the fix-up routine", found="macro=%s assert=%s fixup=%s" % (via_macro, has_assert, fixup))
+
+    # R12.i the emit bounds predicate is exact
+    ri = rep.rule("R12.i", "emit: a write of n bytes at contents+offset happens exactly when offset + n <= contents.len() (not weaker: overrun; not stronger: spurious panic)", floor=4)
+    for p in sorted(writers):
+        if not all("emit_bytes" in (n.get("mac") or []) for n in writers[p]) or len(writers[p]) != 1:
+            continue  # several expansions of the same macro in one function: same predicate by construction
+        fn = F.fns[p]
+        ev = symex.Evaluator(F)
+        args = [ev.sym_for("a%d" % i, q["ty"]) for i, q in enumerate(fn["thir"]["params"])]
+        outs = ev.run_fn(p, args) or []
+        probs, nw = [], 0
+        for v, st in outs:
+            if any(T.lnot(c) in st.conds for c in st.conds):
+                continue  # infeasible: the evaluator does not track the flag across inlined emit calls
+            stores = [e for e in st.effects if e[0] == "store"]
+            lins = [_lin_le(c) for c in st.conds]
+            if stores:
+                nw += 1
+                for e in stores:
+                    base, x = _split_base(e[2])
+                    ref = _lin_add(_lin(x), {"": e[1] // 8}) if base is not None else None
+                    ref = _lin_add(ref, {("len", base): -1}) if ref is not None else None
+                    if ref is None or ref not in lins:
+                        probs.append("write of %d bytes at %s under %s" % (e[1] // 8, T.show(e[2])[:60], [T.show(c) for c in st.conds]))
+            elif st.exit and st.exit[0] == "panic":
+                # a panic path must be the exact complement: offset + n > len  <=>  len - offset - n + 1 <= 0
+                neg = [l for l in lins if l is not None and any(isinstance(k, tuple) and k[0] == "len" for k in l)]
+                want = None
+                for l in neg:
+                    n_bytes = l.get("", 0)
+                    want = l
+                sizes = {e[1] // 8 for _v2, st2 in outs for e in st2.effects if e[0] == "store"}
+                ok = False
+                for l in neg:
+                    ln = [k for k in l if isinstance(k, tuple) and k[0] == "len"]
+                    others = {k: c for k, c in l.items() if k != "" and k not in ln}
+                    if len(ln) == 1 and l[ln[0]] == 1 and all(c == -1 for c in others.values()) and (1 - l.get("", 0)) in sizes:
+                        ok = True
+                if not ok:
+                    probs.append("panic path under %s" % [T.show(c) for c in st.conds])
+        rep.ob(ri, "writer=%s" % p, nw >= 1 and not probs, "bounds predicate of the raw write in %s" % p,
+               expected="offset + n <= contents.len() on the writing path, its exact complement on the panic path", found=probs or "%d writing paths" % nw)
 
     # R12.e repeatability
     re_ = rep.rule("R12.e", "no clock / RNG / environment access reachable from the compilers", floor=1)
